@@ -170,7 +170,9 @@ impl Global {
 
         atomic::fence(Ordering::SeqCst);
 
+        vy!(21, self as *const Self, 0);
         let epoch = self.epoch.load(Ordering::Relaxed);
+        vy!(1221, crate::verif::ed(epoch), 0);
         self.queue.push(bag.seal(epoch), guard);
     }
 
@@ -195,12 +197,14 @@ impl Global {
         );
 
         for _ in 0..Self::COLLECTS_TRIALS {
+            vy!(23, self as *const Self, 0);
             match self.queue.try_pop_if(
                 |sealed_bag: &SealedBag| sealed_bag.is_expired(self.epoch.load(Ordering::Relaxed)),
                 guard,
             ) {
                 None => break,
                 Some(sealed_bag) => {
+                    vy!(1223, crate::verif::ed(sealed_bag.epoch), 0);
                     drop(sealed_bag);
                 }
             }
@@ -217,7 +221,9 @@ impl Global {
     /// `try_advance()` is annotated `#[cold]` because it is rarely called.
     #[cold]
     pub(crate) fn try_advance(&self, guard: &Guard) -> Epoch {
+        vy!(18, self as *const Self, 0);
         let global_epoch = self.epoch.load(Ordering::Relaxed);
+        vy!(1218, crate::verif::ed(global_epoch), 0);
         atomic::fence(Ordering::SeqCst);
 
         // `Local`s are stored in a linked list because linked lists are fairly
@@ -232,7 +238,9 @@ impl Global {
                     return global_epoch;
                 }
                 Ok(local) => {
+                    vy!(19, local as *const Local, 0);
                     let local_epoch = local.epoch.load(Ordering::Relaxed);
+                    vy!(1219, local as *const Local, crate::verif::ed(local_epoch));
 
                     // If the participant was pinned in a different epoch, we cannot advance the
                     // global epoch just yet.
@@ -252,6 +260,7 @@ impl Global {
         // called from a thread that was pinned in `global_epoch`, and the global epoch cannot be
         // advanced two steps ahead of it.
         let new_epoch = global_epoch.successor();
+        vy!(20, self as *const Self, crate::verif::ed(new_epoch));
         self.epoch.store(new_epoch, Ordering::Release);
         new_epoch
     }
@@ -395,8 +404,11 @@ impl Local {
 
         if guard_count == 0 {
             let new_epoch = loop {
+                vy!(10, self as *const Self, 0);
                 let global_epoch = self.global().epoch.load(Ordering::Relaxed);
                 let new_epoch = global_epoch.pinned();
+                vy!(1210, self as *const Self, crate::verif::ed(new_epoch));
+                vy!(11, self as *const Self, 0);
 
                 // Now we must store `new_epoch` into `self.epoch` and execute a `SeqCst` fence.
                 // The fence makes sure that any future loads from `Atomic`s will not happen before
@@ -435,9 +447,11 @@ impl Local {
                     atomic::fence(Ordering::SeqCst);
                 }
 
+                vy!(12, self as *const Self, 0);
                 if new_epoch.value() == self.global().epoch.load(Ordering::Acquire).value() {
                     break new_epoch;
                 }
+                vy!(13, self as *const Self, 0);
                 self.epoch.store(Epoch::starting(), Ordering::Release);
             };
 
@@ -469,6 +483,7 @@ impl Local {
 
         self.guard_count.set(guard_count - 1);
         if guard_count == 1 {
+            vy!(14, self as *const Self, 0);
             self.epoch.store(Epoch::starting(), Ordering::Release);
 
             if self.handle_count.get() == 0 {
@@ -491,12 +506,15 @@ impl Local {
     #[inline]
     pub(crate) fn repin_without_collect(&self) -> Epoch {
         let epoch = self.epoch.load(Ordering::Relaxed);
+        vy!(16, self as *const Self, 0);
         let global_epoch = self.global().epoch.load(Ordering::Relaxed).pinned();
+        vy!(1216, self as *const Self, crate::verif::ed(global_epoch));
 
         // Update the local epoch only if the global epoch is greater than the local epoch.
         if epoch != global_epoch {
             // We store the new epoch with `Release` because we need to ensure any memory
             // accesses from the previous epoch do not leak into the new one.
+            vy!(17, self as *const Self, 0);
             self.epoch.store(global_epoch, Ordering::Release);
         }
         global_epoch
@@ -548,6 +566,7 @@ impl Local {
             let collector: Collector = ptr::read(&**self.collector.get());
 
             // Mark this node in the linked list as deleted.
+            vy!(1225, self as *const Self, 0);
             self.entry.delete(&unprotected());
 
             // Finally, drop the reference to the global. Note that this might be the last reference
@@ -642,6 +661,52 @@ pub mod verif_shim_internal {
             _bag: Bag(Vec::new()),
         };
         sb.is_expired(from_data(global_data))
+    }
+    /// `[guard_count, handle_count, pinned bit, announced epoch value, collecting, must_collect,
+    /// items in the local bag, manual_count]` of the participant behind `g`.
+    pub fn local_info(g: &Guard) -> [usize; 8] {
+        let l = unsafe { &*g.local };
+        let e = l.epoch.load(Ordering::Relaxed);
+        [
+            l.guard_count.get(),
+            l.handle_count.get(),
+            e.is_pinned() as usize,
+            e.value(),
+            l.collecting.get() as usize,
+            l.must_collect.get() as usize,
+            unsafe { (*l.bag.get()).0.len() },
+            l.manual_count.get(),
+        ]
+    }
+    pub fn local_addr(g: &Guard) -> usize {
+        g.local as usize
+    }
+    pub fn handle_addr(h: &LocalHandle) -> usize {
+        h.local as usize
+    }
+    /// Same as `local_info`, from a handle (valid while the handle is alive).
+    pub fn handle_info(h: &LocalHandle) -> [usize; 8] {
+        local_info(&core::mem::ManuallyDrop::new(Guard { local: h.local }))
+    }
+    /// Defers an arbitrary closure through `g`.
+    ///
+    /// # Safety
+    ///
+    /// Same contract as `Guard::defer_unchecked`.
+    pub unsafe fn defer<F: FnOnce()>(g: &Guard, f: F) {
+        g.defer_unchecked(f)
+    }
+    pub fn set_tuning(max_objects: usize, manual_events: usize) {
+        unsafe {
+            MAX_OBJECTS = max_objects;
+            MANUAL_EVENTS_BETWEEN_COLLECT = manual_events;
+        }
+    }
+    pub fn collector_epoch(c: &Collector) -> usize {
+        crate::verif::ed(c.global_epoch())
+    }
+    pub fn try_advance(c: &Collector, g: &Guard) -> usize {
+        crate::verif::ed(c.global.try_advance(g))
     }
     pub fn tuning() -> [usize; 4] {
         unsafe {
